@@ -105,13 +105,16 @@ CHECKS = {
     "C06": dict(
         level="translation_validation", engine="E2-backends + E3-trees + E5-regex",
         technique="z3-checked agreement of three meanings of the same program: the IR, the C text (parsed by pycparser after gcc -E with the real headers) and the emitted LLVM function (parsed instruction by instruction) - on all small typed expression trees, statement programs and on generated kernels with symbolic inputs; bounded",
-        text=("(1) For every well-typed expression tree (exhaustive depth 1, depth 2 every 12th in quick / all in thorough, special "
+        text=("(1) For every well-typed expression tree (exhaustive depth 1, depth 2 every 20th in quick / all in thorough, special "
               "precedence/short-circuit/mixed-type shapes) the real printers are run and z3 compares the IR meaning with the meaning of the C "
               "text and of the LLVM function for all environments in which the IR is safe: value, safety and set of accesses; doubles are compared "
-              "over the rationals and, for bit-identity, structurally (uninterpreted fadd/fsub/fmul). Statement programs (assignment sugar, "
+              "over the rationals and, for bit-identity, structurally (uninterpreted fadd/fmul; x - y = x + (-y), -1 * y = -y, 1 * y = y normalised, "
+              "which is bit-exact in IEEE 754); LLVM functions must be well formed (phi entries = predecessors; every tree module goes "
+              "through the real LLVM verifier) and emitted C may only declare int32_t/double/bool/tensor types. Statement programs (assignment sugar, "
               "else-if chains, loops, block scope vs hoisting, allocation sizes with n up to 2^31-1) run on the path-based machine through IR, "
               "C and LLVM front ends. (2) Generated kernels (evaluate; assemble+compute): IR, lifted C and parsed LLVM on the same symbolic "
-              "inputs, raw pos/crd/vals, block lengths and return values compared per path. (3) gcc -fsyntax-only with the published header and "
+              "inputs, raw pos/crd/vals, block lengths and return values compared per path; every structural value difference is re-decided "
+              "with exact rational values (a real difference cannot hide among rounding-only candidates). (3) gcc -fsyntax-only with the published header and "
               "llvmlite verify for every generated request. (4) Identifier obligations as regular-language queries on the live name regex. "
               "Every reported difference is first reproduced on the real gcc-compiled C and the LLVM JIT."),
         design="DESIGN.md §4 C06",
